@@ -458,6 +458,232 @@ theorem interpolatePoly_spec (τ : F) (A k : Nat) (hτ : IsPrimitiveRoot τ (2 ^
   rw [vw_map _ _ _ (by rw [hbs]; exact brev_lt _ _), hbv _ (brev_lt _ _), brev_brev _ _ hl]
   rfl
 
+theorem two_pow_cast_ne_zero (τ : F) (A k : Nat) (hτ : IsPrimitiveRoot τ (2 ^ A)) (hk : k + 1 ≤ A) :
+    ((2 ^ (k + 1) : Nat) : F) ≠ 0 := by
+  have hhalf := rootK_half τ A (k + 1) hk (by omega) hτ
+  simp only [Nat.add_sub_cancel] at hhalf
+  have hprim := rootK_primitive τ A (k + 1) hτ (by omega)
+  have hne : (-1 : F) ≠ 1 := by
+    intro h
+    rw [h] at hhalf
+    have := (hprim.pow_eq_one_iff_dvd _).mp hhalf
+    have hlt : 2 ^ k < 2 ^ (k + 1) := Nat.pow_lt_pow_right (by decide) (by omega)
+    have := Nat.le_of_dvd (Nat.pow_pos (by decide)) this
+    omega
+  have h2 : (2 : F) ≠ 0 := by
+    intro h
+    apply hne
+    have : (1 : F) + 1 = 0 := by rw [one_add_one_eq_two]; exact h
+    exact (eq_neg_of_add_eq_zero_left this).symm
+  rw [Nat.cast_pow]
+  exact pow_ne_zero _ (by simpa using h2)
+
+theorem dft_congr (ω : F) (n : Nat) (x y : Nat → M) (h : ∀ j, j < n → x j = y j) (i : Nat) :
+    dft ω n x i = dft ω n y i := by
+  unfold dft evalAt
+  exact sum_congr rfl (fun j hj => by rw [h j (mem_range.mp hj)])
+
+/-- (e) interpolation inverts evaluation: if the values are the evaluations of `p` over `ω^i`, the result is `p` -/
+theorem interpolatePoly_of_evals (τ : F) (A k : Nat) (hτ : IsPrimitiveRoot τ (2 ^ A)) (hk : k + 1 ≤ A)
+    (hk32 : k + 1 ≤ 31) (maxLoop : Nat) (v : Array M) (hv : v.size = 2 ^ (k + 1)) (itw : Array F)
+    (hitw : getInvTwiddles (fieldOps F τ A) (2 ^ (k + 1)) = some itw) (p : Nat → M)
+    (hev : ∀ i, i < 2 ^ (k + 1) → vw v i = evalAt (2 ^ (k + 1)) p (rootK τ A (k + 1) ^ i)) :
+    ∃ r, interpolatePoly (modOps F M) (fieldOps F τ A) maxLoop v itw = some r ∧ r.size = 2 ^ (k + 1) ∧
+      ∀ l, l < 2 ^ (k + 1) → vw r l = p l := by
+  obtain ⟨r, er, hrs, hrv⟩ := interpolatePoly_spec (M := M) τ A k hτ hk hk32 maxLoop v hv itw hitw
+  refine ⟨r, er, hrs, ?_⟩
+  intro l hl
+  rw [hrv l hl, dft_congr _ _ (vw v) (dft (rootK τ A (k + 1)) (2 ^ (k + 1)) p) (fun j hj => hev j hj),
+    dft_inv _ _ (rootK_primitive τ A (k + 1) hτ hk) p l hl, smul_smul,
+    inv_mul_cancel₀ (two_pow_cast_ne_zero τ A k hτ hk), one_smul]
+
+/-- (e) the interpolant passes through the given values: evaluating the result at `ω^i` gives value `i` back -/
+theorem interpolatePoly_through (τ : F) (A k : Nat) (hτ : IsPrimitiveRoot τ (2 ^ A)) (hk : k + 1 ≤ A)
+    (hk32 : k + 1 ≤ 31) (maxLoop : Nat) (v : Array M) (hv : v.size = 2 ^ (k + 1)) (itw : Array F)
+    (hitw : getInvTwiddles (fieldOps F τ A) (2 ^ (k + 1)) = some itw) :
+    ∃ r, interpolatePoly (modOps F M) (fieldOps F τ A) maxLoop v itw = some r ∧ r.size = 2 ^ (k + 1) ∧
+      ∀ i, i < 2 ^ (k + 1) → evalAt (2 ^ (k + 1)) (vw r) (rootK τ A (k + 1) ^ i) = vw v i := by
+  obtain ⟨r, er, hrs, hrv⟩ := interpolatePoly_spec (M := M) τ A k hτ hk hk32 maxLoop v hv itw hitw
+  refine ⟨r, er, hrs, ?_⟩
+  intro i hi
+  set n := 2 ^ (k + 1) with hn
+  set ω := rootK τ A (k + 1) with hω
+  have h1 : evalAt n (vw r) (ω ^ i) = dft ω n (fun l => ((n : Nat) : F)⁻¹ • dft ω⁻¹ n (vw v) l) i :=
+    dft_congr ω n _ _ (fun l hl => hrv l hl) i
+  rw [h1]
+  have h2 : dft ω n (fun l => ((n : Nat) : F)⁻¹ • dft ω⁻¹ n (vw v) l) i
+      = ((n : Nat) : F)⁻¹ • dft ω n (dft ω⁻¹ n (vw v)) i := by
+    unfold dft evalAt
+    rw [smul_sum]
+    exact sum_congr rfl (fun j _ => by rw [smul_comm])
+  rw [h2, dft_inv' ω n (rootK_primitive τ A (k + 1) hτ hk) (vw v) i hi, smul_smul,
+    inv_mul_cancel₀ (two_pow_cast_ne_zero τ A k hτ hk), one_smul]
+
+/-- `interpolate_poly_with_offset`: coefficient `l` is `(n⁻¹ · off⁻ˡ) •` the transform with the inverse root -/
+theorem interpolatePolyWithOffset_spec (τ : F) (A k : Nat) (hτ : IsPrimitiveRoot τ (2 ^ A)) (hk : k + 1 ≤ A)
+    (hk32 : k + 1 ≤ 31) (maxLoop : Nat) (v : Array M) (hv : v.size = 2 ^ (k + 1)) (itw : Array F)
+    (hitw : getInvTwiddles (fieldOps F τ A) (2 ^ (k + 1)) = some itw) (off : F) (hoff : off ≠ 0) :
+    ∃ r, interpolatePolyWithOffset (modOps F M) (fieldOps F τ A) maxLoop v itw off = some r ∧
+      r.size = 2 ^ (k + 1) ∧
+      ∀ l, l < 2 ^ (k + 1) →
+        vw r l = (((2 ^ (k + 1) : Nat) : F)⁻¹ * off⁻¹ ^ l) • dft (rootK τ A (k + 1))⁻¹ (2 ^ (k + 1)) (vw v) l := by
+  obtain ⟨tw', e', hts, htv⟩ := getInvTwiddles_spec (F := F) τ A k hτ hk hk32
+  rw [hitw] at e'
+  obtain rfl : itw = tw' := Option.some.inj e'
+  unfold interpolatePolyWithOffset
+  rw [hv, checkDomain_fieldOps τ A (k + 1) hk]
+  have c2 : ¬ (2 ^ (k + 1) ≠ itw.size * 2) := by rw [hts, Nat.pow_succ]; simp
+  have hlt : 2 ^ (k + 1) < 4294967296 := by
+    have : (2 : Nat) ^ (k + 1) < 2 ^ 32 := Nat.pow_lt_pow_right (by decide) (by omega)
+    simpa using this
+  have c3 : ¬ (2 ^ (k + 1) > 4294967295) := by omega
+  simp only [c2, c3, ↓reduceIte, isZero_fieldOps τ A off hoff, Bool.false_eq_true]
+  obtain ⟨b, eb, hbs, hbv⟩ := invTransform_spec (M := M) τ A k hτ hk hk32 maxLoop v hv itw hts htv
+  rw [eb, Option.bind_some]
+  obtain ⟨c, ec, hcs, hcv⟩ := permute_spec (k + 1) (by omega) b hbs
+  rw [ec, Option.bind_some]
+  have hinv1 : (fieldOps F τ A).inv off = some off⁻¹ := rfl
+  have hinv2 : (fieldOps F τ A).inv ((fieldOps F τ A).ofNat (2 ^ (k + 1))) = some (((2 ^ (k + 1) : Nat) : F)⁻¹) := rfl
+  simp only [hinv1, hinv2]
+  obtain ⟨hss, hsv⟩ := shiftBySeries_spec (M := M) τ A c (((2 ^ (k + 1) : Nat) : F)⁻¹) off⁻¹
+  refine ⟨_, rfl, by rw [hss, hcs, hbs], ?_⟩
+  intro l hl
+  rw [hsv l (by rw [hcs, hbs]; exact hl)]
+  have h1 := hcv l (by rw [hbs]; exact hl)
+  rw [vw_eq_getElem? c, h1, ← vw_eq_getElem?, hbv _ (brev_lt _ _), brev_brev _ _ hl]
+
+/-- interpolation over a coset inverts evaluation over that coset -/
+theorem interpolatePolyWithOffset_of_evals (τ : F) (A k : Nat) (hτ : IsPrimitiveRoot τ (2 ^ A))
+    (hk : k + 1 ≤ A) (hk32 : k + 1 ≤ 31) (maxLoop : Nat) (v : Array M) (hv : v.size = 2 ^ (k + 1))
+    (itw : Array F) (hitw : getInvTwiddles (fieldOps F τ A) (2 ^ (k + 1)) = some itw) (off : F) (hoff : off ≠ 0)
+    (p : Nat → M)
+    (hev : ∀ i, i < 2 ^ (k + 1) → vw v i = evalAt (2 ^ (k + 1)) p (off * rootK τ A (k + 1) ^ i)) :
+    ∃ r, interpolatePolyWithOffset (modOps F M) (fieldOps F τ A) maxLoop v itw off = some r ∧
+      r.size = 2 ^ (k + 1) ∧ ∀ l, l < 2 ^ (k + 1) → vw r l = p l := by
+  obtain ⟨r, er, hrs, hrv⟩ := interpolatePolyWithOffset_spec (M := M) τ A k hτ hk hk32 maxLoop v hv itw hitw off hoff
+  refine ⟨r, er, hrs, ?_⟩
+  intro l hl
+  rw [hrv l hl]
+  set n := 2 ^ (k + 1) with hn
+  set ω := rootK τ A (k + 1) with hω
+  -- the values are the plain transform of the coefficients scaled by powers of the offset
+  have hsh : ∀ i, i < n → vw v i = dft ω n (fun j => (1 * off ^ j) • p j) i := by
+    intro i hi
+    rw [hev i hi, mul_comm off]
+    exact (evalAt_shift n p _ off (ω ^ i) (fun j _ => rfl)).symm
+  rw [dft_congr _ _ (vw v) _ hsh, dft_inv ω n (rootK_primitive τ A (k + 1) hτ hk) _ l hl, smul_smul, smul_smul]
+  have : ((n : Nat) : F)⁻¹ * off⁻¹ ^ l * (n : Nat) * (1 * off ^ l) = 1 := by
+    have hn0 : ((n : Nat) : F) ≠ 0 := two_pow_cast_ne_zero τ A k hτ hk
+    have ho : off ^ l ≠ 0 := pow_ne_zero _ hoff
+    rw [inv_pow]
+    field_simp
+  rw [this, one_smul]
+
+/-! ### degree inference -/
+
+/-- the loop of `degree_of` over the first `m` coefficients: the result is 0 or the index of a non-zero
+    coefficient, and every later coefficient (below `m`) is zero -/
+theorem degreeOf_loop (p : Array M) (m : Nat) (hm : m ≤ p.size) :
+    let D := (List.range m).foldl (fun d i => match p[i]? with
+      | some x => if (modOps F M).isZero x then d else i
+      | none => d) 0
+    (D = 0 ∨ (D < m ∧ vw p D ≠ 0)) ∧ ∀ j, D < j → j < m → vw p j = 0 := by
+  induction m with
+  | zero => simp
+  | succ m ih =>
+    have ih := ih (by omega)
+    simp only [List.range_succ, List.foldl_append, List.foldl_cons, List.foldl_nil]
+    set D := (List.range m).foldl (fun d i => match p[i]? with
+      | some x => if (modOps F M).isZero x then d else i
+      | none => d) 0 with hD
+    have hpm : p[m]? = some (vw p m) := by
+      rw [vw_of_lt p m (by omega)]; exact Array.getElem?_eq_getElem (by omega)
+    rw [hpm]
+    simp only
+    by_cases hz : vw p m = 0
+    · have : (modOps F M).isZero (vw p m) = true := by simp [modOps, hz]
+      rw [this]
+      simp only [↓reduceIte]
+      obtain ⟨h1, h2⟩ := ih
+      refine ⟨?_, ?_⟩
+      · rcases h1 with h1 | h1
+        · left; exact h1
+        · right; exact ⟨by omega, h1.2⟩
+      · intro j hj1 hj2
+        by_cases hjm : j = m
+        · rw [hjm]; exact hz
+        · exact h2 j hj1 (by omega)
+    · have : (modOps F M).isZero (vw p m) = false := by simp [modOps, hz]
+      rw [this]
+      simp only [Bool.false_eq_true, ↓reduceIte]
+      refine ⟨?_, ?_⟩
+      · right; exact ⟨by omega, hz⟩
+      · intro j hj1 hj2; omega
+
+/-- `degree_of` returns the index of the last non-zero coefficient -/
+theorem degreeOf_eq (p : Array M) (d : Nat) (hd : d < p.size) (hnz : vw p d ≠ 0)
+    (hz : ∀ j, d < j → j < p.size → vw p j = 0) : degreeOf (modOps F M) p = d := by
+  obtain ⟨h1, h2⟩ := degreeOf_loop (F := F) p p.size (Nat.le_refl _)
+  unfold degreeOf
+  set D := (List.range p.size).foldl (fun d i => match p[i]? with
+      | some x => if (modOps F M).isZero x then d else i
+      | none => d) 0 with hD
+  rcases Nat.lt_trichotomy D d with h | h | h
+  · exact absurd (h2 d h hd) hnz
+  · exact h
+  · rcases h1 with h1 | h1
+    · omega
+    · exact absurd (hz D h h1.1) h1.2
+
+/-- … and 0 for the zero polynomial -/
+theorem degreeOf_zero (p : Array M) (hz : ∀ j, j < p.size → vw p j = 0) : degreeOf (modOps F M) p = 0 := by
+  obtain ⟨h1, _⟩ := degreeOf_loop (F := F) p p.size (Nat.le_refl _)
+  unfold degreeOf
+  rcases h1 with h1 | h1
+  · exact h1
+  · exact absurd (hz _ h1.1) h1.2
+
+/-- (g) `infer_degree` of the evaluations of `p` over the coset `off · ω^i` is the true degree of `p`:
+    the index `d` of its last non-zero coefficient -/
+theorem inferDegree_spec (τ : F) (A k : Nat) (hτ : IsPrimitiveRoot τ (2 ^ A)) (hk : k + 1 ≤ A)
+    (hk32 : k + 1 ≤ 31) (maxLoop : Nat) (v : Array M) (hv : v.size = 2 ^ (k + 1)) (off : F) (hoff : off ≠ 0)
+    (p : Nat → M)
+    (hev : ∀ i, i < 2 ^ (k + 1) → vw v i = evalAt (2 ^ (k + 1)) p (off * rootK τ A (k + 1) ^ i))
+    (d : Nat) (hd : d < 2 ^ (k + 1)) (hnz : p d ≠ 0) (hz : ∀ j, d < j → j < 2 ^ (k + 1) → p j = 0) :
+    inferDegree (modOps F M) (fieldOps F τ A) maxLoop v off = some d := by
+  obtain ⟨itw, hitw, _, _⟩ := getInvTwiddles_spec (F := F) τ A k hτ hk hk32
+  obtain ⟨r, er, hrs, hrv⟩ := interpolatePolyWithOffset_of_evals (M := M) τ A k hτ hk hk32 maxLoop v hv itw hitw
+    off hoff p hev
+  unfold inferDegree
+  rw [hv, checkDomain_fieldOps τ A (k + 1) hk]
+  simp only [isZero_fieldOps τ A off hoff, Bool.false_eq_true, ↓reduceIte, hitw, er, Option.map_some,
+    Option.some.injEq]
+  apply degreeOf_eq (F := F) r d (by rw [hrs]; exact hd)
+  · rw [hrv d hd]; exact hnz
+  · intro j hj1 hj2
+    rw [hrs] at hj2
+    rw [hrv j hj2]; exact hz j hj1 hj2
+
+/-- (g) … and 0 for the zero polynomial -/
+theorem inferDegree_zero (τ : F) (A k : Nat) (hτ : IsPrimitiveRoot τ (2 ^ A)) (hk : k + 1 ≤ A)
+    (hk32 : k + 1 ≤ 31) (maxLoop : Nat) (v : Array M) (hv : v.size = 2 ^ (k + 1)) (off : F) (hoff : off ≠ 0)
+    (hev : ∀ i, i < 2 ^ (k + 1) → vw v i = 0) :
+    inferDegree (modOps F M) (fieldOps F τ A) maxLoop v off = some 0 := by
+  obtain ⟨itw, hitw, _, _⟩ := getInvTwiddles_spec (F := F) τ A k hτ hk hk32
+  have hev' : ∀ i, i < 2 ^ (k + 1) →
+      vw v i = evalAt (2 ^ (k + 1)) (fun _ => (0 : M)) (off * rootK τ A (k + 1) ^ i) := by
+    intro i hi; rw [hev i hi]; simp [evalAt]
+  obtain ⟨r, er, hrs, hrv⟩ := interpolatePolyWithOffset_of_evals (M := M) τ A k hτ hk hk32 maxLoop v hv itw hitw
+    off hoff (fun _ => 0) hev'
+  unfold inferDegree
+  rw [hv, checkDomain_fieldOps τ A (k + 1) hk]
+  simp only [isZero_fieldOps τ A off hoff, Bool.false_eq_true, ↓reduceIte, hitw, er, Option.map_some,
+    Option.some.injEq]
+  apply degreeOf_zero (F := F) r
+  intro j hj
+  rw [hrs] at hj
+  exact hrv j hj
+
 end field
 
 end WinterProofs.C09
